@@ -39,9 +39,9 @@ EXTR = ['alt', 'acb', 'a', 'b', 'sp', 'nl', 'fn', 'xo', 'cap', 'cb', 'uk', 'ob',
 UNKN = ['ntm', 'bth', 'eth', 'hsu', 'phu', 'a', 'sp', 'uk', 'uk2', 'bu', 'eu', 'xo', 'cb', 'ob', 'fn', 'sec', 'add', 'tc', 'cmu', 'skb', 'ske', 'q', 'mo', 'mc', 'mal', 'my', 'bd', 'ed', 'dA', 'uA', 'dB', 'uB', 'uC', 'dC', 'lb', 'it', 'bi', 'ei', 'vb']
 COPY = ['acc', 'tbs', 'itl', 'ilc', 'bi', 'ei', 'a', 'b', '.', 'sp', 'nl', 'cm', 'ob', 'cb', 'uk', 'add', 'fbx', 'tc', 'fn', 'cap', 'vb', 'tie', 'nd', 'md', 'lq', 'rq',
         'thin', 'pct', 'amp', 'dol', 'hsh', 'usc', 'lbr', 'rbr', 'lb', 'sec', 'im']
-PROSE = ['ntm', 'bth', 'eth', 'itl', 'ilc', 'bp', 'ep', 'bt', 'et', 'tamp', 'tbsl', 'capo', 'seco', 'hsu', 'phu', 'alt', 'acb', 'ltD', 'uA', 'up', 'cto', 'ctc', 'a', 'b', '!', 'sp', 'nl', 'cm', 'uk', 'uk2', 'ob', 'cb', 'add', 'tc', 'fn', 'cap', 'sec', 'sub', 'bi', 'ei', 'be', 'ee', 'it',
+PROSE = ['fct', 'ntm', 'bth', 'eth', 'itl', 'ilc', 'bp', 'ep', 'bt', 'et', 'tamp', 'tbsl', 'capo', 'seco', 'hsu', 'phu', 'alt', 'acb', 'ltD', 'uA', 'up', 'cto', 'ctc', 'a', 'b', '!', 'sp', 'nl', 'cm', 'uk', 'uk2', 'ob', 'cb', 'add', 'tc', 'fn', 'cap', 'sec', 'sub', 'bi', 'ei', 'be', 'ee', 'it',
          'bu', 'eu', 'skb', 'ske', 'q', 'fnq', 'skp', 'bl', 'el', 'lb', 'ix', 'cite', 'ref', 'im', 'imp', 'par', 'bm', 'em']
-GENER = ['ntm', 'bth', 'eth', 'itl', 'ilc', 'bp', 'ep', 'tamp', 'bt', 'et', 'hsp', 'phn', 'tbs', 'dB', 'dC', 'uB', 'uBt', 'uC', 'a', '.', 'sp', 'nl', 'ref', 'cite', 'im', 'imp', 'it', 'bi', 'ei', 'be', 'ee', 'sec', 'sub', 'fn', 'cap', 'cb', 'par', 'bm', 'em', 'lb', 'uk']
+GENER = ['fct', 'ntm', 'bth', 'eth', 'itl', 'ilc', 'bp', 'ep', 'tamp', 'bt', 'et', 'hsp', 'phn', 'tbs', 'dB', 'dC', 'uB', 'uBt', 'uC', 'a', '.', 'sp', 'nl', 'ref', 'cite', 'im', 'imp', 'it', 'bi', 'ei', 'be', 'ee', 'sec', 'sub', 'fn', 'cap', 'cb', 'par', 'bm', 'em', 'lb', 'uk']
 
 # per property: verdict key, list of exhaustive configs per tier (symbols, MaxSym, MaxDepth), simulation
 CONFIG = {
@@ -90,7 +90,7 @@ CONFIG = {
                 thorough=[(LAYOUT, 6, 1), (LAYOUT2, 4, 2), (['a', 'sp', 'nl', 'cm', 'lb', 'uk', 'ob', 'cb', 'skp', 'par', 'tab'], 5, 2), (LINES10, 5, 1), (LINES, 4, 2)],
                 sim=(LAYOUT2, 300, 3000)),
 }
-OPTS = {'pack': 'xcolor,listings,amsmath,glossaries,amsthm'}
+OPTS = {'pack': 'xcolor,listings,amsmath,glossaries,amsthm,biblatex'}
 
 
 def project(rec):
